@@ -4,7 +4,7 @@
    (bufio + http.ReadRequest: any adaptive sequence of read sizes, any Host answer), utls
    (any server-name answer), AES header protection / AEAD / HKDF (any functions), net.ParseIP,
    strconv.Atoi, sort.Slice (any permutation). *)
-From Hy Require Import model.C17_Sniff model.C17_Assemble proof.C17_Sniff proof.C17_Quic proof.C17_Misc proof.C17_Addr proof.C17_Assemble.
+From Hy Require Import model.C17_Sniff model.C17_Assemble model.C17_Own proof.C17_Own proof.C17_Sniff proof.C17_Quic proof.C17_Misc proof.C17_Addr proof.C17_Assemble.
 From Coq Require Import ZArith Permutation.
 Local Open Scope N_scope.
 
@@ -22,6 +22,35 @@ Theorem C17_tcp_transparent : forall fuel consumer sni dl_fail s addr o,
   (o_err o = true -> o_addr o = addr /\ o_replay o = [] /\ (dl_fail = true \/ split_host_port addr = None)).
 Proof. exact tcp_transparent. Qed.
 Print Assumptions C17_tcp_transparent.
+
+(* TCP, ownership of the replay bytes (model/C17_Own.v).  The server writes the putback to the target
+   only after logging and dialling; meanwhile other hooked streams are sniffed.  With the detection
+   buffer a fresh heap cell per call (the code as it is), for EVERY history of sniff / write events over
+   any number of streams, what is written to stream i's target is the replay of stream i's own call. *)
+Theorem C17_tcp_replay_not_written_after_return : forall replay_of evs i b,
+  In (i, b) (own_run replay_of false own_init evs) -> b = replay_of i.
+Proof. exact replay_stable. Qed.
+Print Assumptions C17_tcp_replay_not_written_after_return.
+
+(* ... hence, with C17_tcp_transparent, for every history: the bytes stream i's target is sent followed by
+   the bytes still unread on stream i are exactly what stream i's client sent. *)
+Theorem C17_tcp_transparent_among_streams :
+  forall (fuel : nat -> nat) (consumer : nat -> c17_consumer) (sni : nat -> list byte -> option (list byte))
+         (dl_fail : nat -> bool) (s : nat -> c17_script) (addr : nat -> list byte) (o : nat -> tcp_out) evs i b,
+  (forall j, first_read_big (consumer j)) ->
+  (forall j, sniff_tcp (fuel j) (consumer j) (sni j) (dl_fail j) (s j) (addr j) = Ok (o j)) ->
+  In (i, b) (own_run (fun j => o_replay (o j)) false own_init evs) ->
+  o_err (o i) = false ->
+  b ++ c17_unread (o_rest (o i)) = c17_unread (s i).
+Proof. exact replay_stable_transparent. Qed.
+Print Assumptions C17_tcp_transparent_among_streams.
+
+(* A variant whose detection buffer comes from a pool shared by all calls and goes back to it on return
+   violates exactly this: sniff A, sniff B, write A - A's target is sent B's bytes. *)
+Theorem C17_tcp_pooled_buffer_refuted :
+  exists replay_of evs i b, In (i, b) (own_run replay_of true own_init evs) /\ b <> replay_of i.
+Proof. exact pooled_refuted. Qed.
+Print Assumptions C17_tcp_pooled_buffer_refuted.
 
 (* TCP, address: the new address is the old one, or join(h, port of the old one) where h is the
    host part of a non-empty Host the consumer reported on a stream starting with three letters,
